@@ -139,6 +139,10 @@ fn spec_for(id: &str, tier: Tier) -> Spec {
             let mut plans = base_plans(tier);
             if tier == Tier::Thorough {
                 plans.extend(overlay_plans(tier));
+            } else {
+                // pre-populated lower layers are part of C01's quantifier: one such configuration per change
+                let u2 = Universe::new("U2{a,a/a}", &["/a", "/a/a"]);
+                plans.push(populated(mem2(), Order::Asc, alphabet(u3(), &W1, 2, true), &u2, true));
             }
             Spec {
                 domain: Domain::Typed,
@@ -278,6 +282,8 @@ fn spec_for(id: &str, tier: Tier) -> Spec {
 fn to_space(id: &str, spec: &Spec, p: Plan) -> TreeSpace {
     let mut alpha = p.alpha;
     alpha.observers = spec.observers;
+    // C08: the three timestamp setters are mutating calls too ("re-times")
+    alpha.setters = id == "C08";
     let mut inits = p.inits;
     if !spec.mon.model {
         // model-free monitors keep exploring through states the model would reject
@@ -299,7 +305,13 @@ pub fn run(ctx: &Ctx, id: &str) -> i32 {
     }
     println!("{}: {} configurations, tier {:?}", id, spaces.len(), ctx.tier);
     let lim = limits(ctx);
-    let (stats, vio) = run_spaces(ctx, spaces, &lim);
+    let (mut stats, mut vio) = run_spaces(ctx, spaces, &lim);
+    if id == "C12" {
+        let (st, v) = c12_extras(ctx);
+        println!("  [{}] evaluations={} violations={}", st.label, st.transitions, v.len());
+        stats.push(st);
+        vio.extend(v);
+    }
     let cov = bfs_coverage(
         &stats,
         spec.rule,
@@ -384,4 +396,140 @@ pub fn replay(v: &serde_json::Value) -> i32 {
     }
     println!("(replayed twice, identical observations) recorded summary: {}", v["summary"].as_str().unwrap_or(""));
     0
+}
+
+/// C12 beyond the state-space exploration: (a) the setters, read_to_string, is_file/is_dir on
+/// every path of every tree; (b) error items of walk_dir when a directory vanishes mid-walk:
+/// every (walker position i) x (removed directory q).
+fn c12_extras(ctx: &Ctx) -> (Stats, Vec<Violation>) {
+    use crate::api::*;
+    use crate::tree::errpath_violations;
+    use rayon::prelude::*;
+    let thorough = ctx.tier == Tier::Thorough;
+    let trees = trees_over(&u22().paths, b"x");
+    let mut cfgs: Vec<(Cfg, usize, fn(TimeField) -> bool)> = vec![
+        (Cfg::Mem, 0, |_| true),
+        (Cfg::Phys, 0, |f| f != TimeField::Created),
+        (Cfg::alt(Cfg::Mem, "/Z"), 0, |_| true),
+        (mem2(), 1, |_| true),
+    ];
+    if thorough {
+        cfgs.push((Cfg::alt(Cfg::Phys, "/Z/Y"), 0, |f| f != TimeField::Created));
+        cfgs.push((Cfg::alt(mem2(), "/Z"), 1, |_| true));
+        cfgs.push((Cfg::Ov(vec![Cfg::Phys, Cfg::Phys]), 1, |f| f != TimeField::Created));
+    }
+    let t = std::time::SystemTime::UNIX_EPOCH + std::time::Duration::from_secs(86_400);
+    let work: Vec<(usize, usize)> = (0..cfgs.len()).flat_map(|c| (0..trees.len()).map(move |t| (c, t))).collect();
+    let res: Vec<(u64, Vec<Violation>)> = work
+        .par_iter()
+        .map(|(ci, ti)| {
+            let (cfg, base, supports) = &cfgs[*ci];
+            let tree = &trees[*ti];
+            let mut n = 0u64;
+            let mut vio = vec![];
+            let init: Init = vec![(*base, tree.clone())];
+            let model = Model::union_of(&[tree.clone()]).unwrap();
+            let mk = |tail: String, what: String| Violation {
+                property: "C12".into(),
+                signature: format!("{}|{}", cfg.label(), tail),
+                summary: format!("{} over tree {:?}: {}", cfg.label(), tree.iter().map(|(p, n)| format!("{}{}", p, if *n == Node::Dir { "/" } else { "" })).collect::<Vec<_>>(), what),
+                replay: json!({"engine": "c12-extras", "configuration": cfg.label(), "tree": tree.iter().map(|(p, n)| json!({"path": p, "dir": *n == Node::Dir})).collect::<Vec<_>>()}),
+            };
+            // (a) remaining fallible methods on every path
+            let b = build(cfg, Order::Asc, &init);
+            let mut paths = u22().with_root();
+            paths.push("/a/a/a".into());
+            paths.push("/zz".into());
+            for p in &paths {
+                let x = at(&b.root, p).unwrap();
+                let missing = !p.is_empty() && !model.exists(p) && model.is_dir(&parent_of(p));
+                let cls = if model.is_dir(p) { "dir" } else if model.is_file(p) { "file" } else if missing { "absent" } else { "absent-no-parent" };
+                let mut calls: Vec<(&str, R<()>, bool)> = vec![
+                    ("read_to_string", PathApi::read_to_string(&x).map(|_| ()), true),
+                    ("is_file", PathApi::is_file(&x).map(|_| ()), true),
+                    ("is_dir", PathApi::is_dir(&x).map(|_| ()), true),
+                ];
+                for f in [TimeField::Created, TimeField::Modified, TimeField::Accessed] {
+                    let name = match f {
+                        TimeField::Created => "set_creation_time",
+                        TimeField::Modified => "set_modification_time",
+                        TimeField::Accessed => "set_access_time",
+                    };
+                    let r = x.set_time(f, t);
+                    if !supports(f) {
+                        // unimplemented optional operation => not-supported
+                        n += 1;
+                        match &r {
+                            Err(e) if e.kind == Kind::NotSupported => {}
+                            other => vio.push(mk(format!("{}|{}|unsupported-setter-not-NotSupported", name, cls), format!("{}({:?}) on a backend without that setter returned {:?}", name, p, other.as_ref().map_err(|e| e.kind)))),
+                        }
+                    }
+                    // lower-only overlay entries: recorded C19 finding, nothing to classify here
+                    calls.push((name, r, supports(f) && !cfg.has_overlay()));
+                }
+                for (name, r, classify) in calls {
+                    n += 1;
+                    if let Err(e) = r {
+                        for (k, w) in errpath_violations(&e, p, None) {
+                            vio.push(mk(format!("{}|{}|{}", name, cls, k), format!("{}({:?}): {}", name, p, w)));
+                        }
+                        if classify && missing && e.kind != Kind::NotFound {
+                            vio.push(mk(format!("{}|absent|kind={}", name, e.kind.name()), format!("{}({:?}) on an entry missing from an existing directory failed with {} instead of not-found", name, p, e.kind.name())));
+                        }
+                    }
+                }
+            }
+            // (b) directories that vanish mid-walk
+            let dirs: Vec<String> = tree.iter().filter(|(_, n)| *n == Node::Dir).map(|(p, _)| p.clone()).collect();
+            let total = model.descendants("").len();
+            for q in &dirs {
+                for i in 0..=total {
+                    n += 1;
+                    let b = build(cfg, Order::Asc, &init);
+                    let r = guard(|| {
+                        let mut it = b.root.walk_dir().map_err(|e| einfo(&e))?;
+                        let mut items: Vec<R<String>> = vec![];
+                        for _ in 0..i {
+                            match it.next() {
+                                Some(x) => items.push(x.map(|p| p.as_str().to_string()).map_err(|e| einfo(&e))),
+                                None => break,
+                            }
+                        }
+                        let _ = at(&b.root, q).unwrap().remove_dir_all();
+                        for x in it.by_ref().take(1000) {
+                            items.push(x.map(|p| p.as_str().to_string()).map_err(|e| einfo(&e)));
+                        }
+                        Ok::<_, EInfo>(items)
+                    });
+                    match r {
+                        Err(m) => vio.push(mk("walk-vanishing-dir|panic".into(), format!("walk_dir with {:?} removed after {} items panicked: {}", q, i, m))),
+                        Ok(Err(_)) => {}
+                        Ok(Ok(items)) => {
+                            for e in items.iter().filter_map(|x| x.as_ref().err()) {
+                                // the error must name the vanished directory or something inside it
+                                for (k, w) in errpath_violations(e, q, None) {
+                                    vio.push(mk(format!("walk-vanishing-dir|{}", k), format!("walk_dir with {:?} removed after {} items yielded an error item: {}", q, i, w)));
+                                }
+                            }
+                        }
+                    }
+                }
+            }
+            (n, vio)
+        })
+        .collect();
+    let mut st = Stats {
+        label: "C12 extras: setters / read_to_string / is_x on every path of every tree; walk_dir with a directory vanishing at every walker position".into(),
+        states: (trees.len() * cfgs.len()) as u64,
+        fixpoint: true,
+        ..Default::default()
+    };
+    let mut vio = vec![];
+    for (n, v) in res {
+        st.transitions += n;
+        vio.extend(v);
+    }
+    st.nontrivial = st.states;
+    st.samples = vec![vec!["walk_dir(root) on {/a/, /a/a/, /a/b, /b} with remove_dir_all(/a) after 2 items".into()]];
+    (st, crate::handle::dedupe(vio))
 }
